@@ -1,5 +1,5 @@
 //! Tiny subject for C20: runs the real okane-golden helper once.
-//! usage: golden_probe <golden path> <file holding `got`>
+//! usage: golden_probe <golden path> <file holding `got`> [unset | set:<value>]
 fn main() {
     let args: Vec<String> = std::env::args().collect();
     if args.len() < 3 {
@@ -14,6 +14,14 @@ fn main() {
             std::process::exit(3);
         }
     };
+    // optional: change UPDATE_GOLDEN between Golden::new and Golden::assert
+    if let Some(sw) = args.get(3) {
+        if sw == "unset" {
+            std::env::remove_var("UPDATE_GOLDEN");
+        } else if let Some(v) = sw.strip_prefix("set:") {
+            std::env::set_var("UPDATE_GOLDEN", v);
+        }
+    }
     golden.assert(&got);
     println!("ASSERT-OK");
 }
